@@ -120,6 +120,20 @@ MISSED = {
     "C17-m": "no url was ever passed to schemaless.loadConfigFile, so no %include argument could resolve against a base; added a directives stream loading %include / %define texts with and without a url, with arguments in every spelling urljoin maps back to the text's own url",
     "C18-n": "no directory or file was ever called exactly '~' or '~<login name>' and named as the first segment of a relative top-resource path; added names that are special as a whole (tilde forms, option- and pattern-like names) in every role of the relative path through all entry points",
     "C20-n": 'no file handler was created or configured with delay and then sent a record before reopenFiles() / closeFiles(); added delay x emit to the registry sequences with a no-open-stream-after-closeFiles oracle and a configured-logfile stream {plain, size, timed} x delay checked on files and streams',
+    # round 8
+    "C02-p": "a conforming text on which the loader raised something that is no ConfigurationError was skipped (left to C01) and no stream needed a schema object's defaults twice; such an outcome is now a C02 violation with a minimised load-history replay, and a stream of repeated defaulted loads on one schema object (results changed in place between loads) was added",
+    "C05-o": 'no two values differed only in letter case; added case-variant values and a re-definition matrix over all ordered value pairs (literal and by reference, across include placements, with a use before and after)',
+    "C06-p": 'no line began with a character that decoders treat as a stream-start mark (U+FEFF ...) and no cut started at such a line; added column-0 marks, a steered cut starting at the marked line, and a real-vs-real stream with free-form (string key type) keys',
+    "C08-o": 'the unconvertible value text was always unique in the configuration; added the fault kind bad-value-repeated-text (the same text also on accepted key lines of the same or another section, across %include fragments)',
+    "C10-o": 'attribute collisions were only tried with an appended key stating the attribute; added every ordered pair of attribute-taking children (key / multikey / section / multisection; own name, other name, wildcard) in schema, section type, derived types, components',
+    "C10-p": "extends= / implements= / type= were only written with exact or unknown names; added ill-formed references derived from an existing type's name (blanks, illegal characters, non-ASCII case-mapping relatives such as KELVIN SIGN) at every reference site",
+    "C11-p": "no component imported a component with a package name relative to a prefix that is neither its own package nor the schema's; added a nested-import family (single path and diamond) with decoy components under every other reading of the name",
+    "C12-o": 'component packages always had flat lower-case ASCII names; added packages under every class of legal importable dotted name (non-ASCII identifiers, mixed case, underscores, sub-packages) and same-class names that are not component packages',
+    "C15-o": 'texts never nested more than four sections deep and no section type nested inside itself; added schemas whose types nest without bound and a sweep over every nesting depth 0-136 (and neighbourhoods of round numbers up to 512) around an empty section written both ways',
+    "C16-o": 'zero-entry loads were reached but every handler-map experiment was skipped for them; added empty / extra-name / None / case-variant-duplicate maps for entry-less composite handlers (also against the callHandlers model) and schemas with no or few handler attributes',
+    "C18-p": 'every reference spelling wrote a blank as %20; added the raw-blank spelling (blank written raw inside %include arguments and src attributes) with decoy files named like the blank-separated pieces',
+    "C20-o": 'every level spelling was converted exactly once per process and no configuration carried an out-of-range level; added repeated conversions and level spellings through logger / eventlog / handler sections loaded repeatedly',
+    "C20-p": 'a format was loaded with arbitrary-fields off and then on, never off after on; added histories of handler sections sharing style and format with arbitrary-fields on / off / default in every order',
 }
 
 
